@@ -37,7 +37,7 @@ PIPES = [["compute_tip_position"],
 POC = ["deviation_from_baseline", "fit_constant_line", "fit_constant_polynomial", "fit_line_polynomial",
        "frechet_direct_path", "gradient_zero_crossing"]
 SCENARIOS = ["params_passed", "params_returned", "pre_list", "pre_options", "range_x", "method_kws",
-             "fit_pre_kwargs", "poc_array", "rater_names", "rater_arrays"]
+             "fit_pre_kwargs", "poc_array", "rater_names", "rater_arrays", "curve_attrs", "details_alias"]
 
 
 def st_case(scenario):
@@ -368,6 +368,74 @@ def scenario_poc_array(case, ctx, desc):
     ctx.check(all(np.array_equal(idnt[c], raw[c]) for c in raw), "argument-mutated", desc,
               "estimate_contact_point_index changed the curve's columns")
     del r1, r2
+
+
+def _arrays_in(obj):
+    if isinstance(obj, np.ndarray):
+        yield obj
+    elif isinstance(obj, dict):
+        for v in obj.values():
+            yield from _arrays_in(v)
+    elif isinstance(obj, (list, tuple)):
+        for v in obj:
+            yield from _arrays_in(v)
+
+
+def scenario_details_alias(case, ctx, desc):
+    """objects returned by the library (contact-point / preprocessing details) are the caller's to edit: editing
+    them in place must not reach the force array that was passed in nor the curve's columns"""
+    from nanite import poc
+    m = case["edit"]["poc_method"]
+    a = synth.arrays(case["curve"])
+    force = a["force"].copy()
+    keep = force.copy()
+    ctx.note_case(case, nontrivial=True, classes=["details_alias", m])
+    desc = dict(desc, method=m)
+    with fitgen.catch() as box:
+        idx, details = poc.compute_poc(force, m, ret_details=True)
+    if box["exc"] is None:
+        for arr in _arrays_in(details):
+            if arr.flags.writeable and arr.dtype.kind == "f":
+                arr += 1.0
+        ctx.check(np.array_equal(force, keep), "returned-object-aliases-argument", desc,
+                  f"editing the details returned by compute_poc({m}, ret_details=True) changed the caller's force array")
+    steps = list(PIPES[2])
+    idnt = new_curve(case)
+    with fitgen.catch() as box:
+        details = idnt.apply_preprocessing(steps, {"correct_tip_offset": {"method": m}}, ret_details=True)
+    if box["exc"] is None and details:
+        cols = {c: idnt[c].tobytes() for c in idnt.columns}
+        for arr in _arrays_in(details):
+            if arr.flags.writeable and arr.dtype.kind == "f":
+                arr *= 3.0
+        ctx.check(all(idnt[c].tobytes() == cols[c] for c in cols), "returned-object-aliases-argument", desc,
+                  "editing the details returned by apply_preprocessing(ret_details=True) changed the curve's columns")
+
+
+def scenario_curve_attrs(case, ctx, desc):
+    """idnt.preprocessing / idnt.preprocessing_options are handed out by the curve; the caller edits them in
+    place and passes them again (or re-applies): same outcome as for fresh equal-valued objects"""
+    e = case["edit"]
+
+    def make(idnt):
+        idnt.apply_preprocessing(list(PIPES[e["pipe_a"] % 3]), {"correct_tip_offset": {"method": e["poc_a"]}}
+                                 if "correct_tip_offset" in PIPES[e["pipe_a"] % 3] else {})
+        return {"steps": idnt.preprocessing, "opts": idnt.preprocessing_options}
+
+    def edit(args):
+        if "correct_tip_offset" not in args["steps"]:
+            args["steps"].append("correct_tip_offset")
+        args["opts"].setdefault("correct_tip_offset", {})["method"] = e["poc_b"]
+        if "correct_force_offset" not in args["steps"]:
+            args["steps"].insert(1, "correct_force_offset")
+
+    def call(idnt, args):
+        idnt.apply_preprocessing(args["steps"], args["opts"])
+
+    # editing the handed-out objects must not reach what the curve stores in its fit properties
+    _twin(case, ctx, desc, make, edit, call, prep=lambda c: new_curve(c),
+          stored=lambda i: (copy.deepcopy(i.fit_properties.get("preprocessing")),
+                            copy.deepcopy(i.fit_properties.get("preprocessing_options"))))
 
 
 def _fitted(case):
